@@ -93,7 +93,7 @@ Qed.
 Lemma vol_pattern_volpath basep i c :
   vol_pattern basep (basep ++ [46; 118; 111; 108] ++ dec2 (N.of_nat i) ++ [43] ++ dec2 (N.of_nat c) ++ EXT_PAR2) = true.
 Proof.
-  unfold vol_pattern. apply andb_true_iff. split; [apply andb_true_iff; split|].
+  unfold vol_pattern. apply andb_true_iff. split; [apply andb_true_iff; split; [apply andb_true_iff; split|]|].
   - apply Nat.leb_le. rewrite !app_length. cbn [length]. lia.
   - unfold starts_with.
     replace (basep ++ [46; 118; 111; 108] ++ dec2 (N.of_nat i) ++ [43] ++ dec2 (N.of_nat c) ++ EXT_PAR2)
@@ -107,6 +107,7 @@ Proof.
     rewrite app_length.
     match goal with |- context [skipn (?a + ?b - ?b)] => replace (a + b - b)%nat with a by lia end.
     rewrite (Par2Create.skipn_app_len _ _ _ eq_refl). apply str_eqb_refl.
+  - apply no_slash_vol_path.
 Qed.
 
 Section CLICompose.
@@ -469,6 +470,7 @@ Section CLICompose.
     apply str_eqb_eq in Ee.
     destruct files as [|f0 files]; [discriminate H|].
     cbv zeta in H. fold (create_slice p) in H. fold (create_blocks p) in H. fold basedir in H. fold rels in H.
+    lazymatch type of H with (if ?c then _ else _) = _ => destruct c; [discriminate H|] end.
     lazymatch type of H with (if ?c then _ else _) = _ => destruct c; [discriminate H|] end.
     destruct (Nat.eqb (create_slice p mod 4) 0) eqn:E4; cbn [negb] in H; [|discriminate H].
     apply Nat.eqb_eq in E4.
